@@ -305,7 +305,10 @@ func ruleSpecPutDelete(c *Ctx, r *R) {
 }
 
 // ordinaryClassTable builds the abstract value of *classObject from the stores the package initialiser makes.
-func ordinaryClassTable(c *Ctx, in *absInterp) (aval, string) {
+func ordinaryClassTable(c *Ctx, in *absInterp) (aval, string) { return classTableOf(c, in, "classObject") }
+
+// classTableOf builds the abstract value of the class table stored in the package-level variable `global`.
+func classTableOf(c *Ctx, in *absInterp, global string) (aval, string) {
 	pkg := c.Otto()
 	var init *ssa.Function
 	for _, fn := range c.AllSrcFuncs("") {
@@ -313,7 +316,7 @@ func ordinaryClassTable(c *Ctx, in *absInterp) (aval, string) {
 			for _, b := range fn.Blocks {
 				for _, ins := range b.Instrs {
 					if st, ok := ins.(*ssa.Store); ok {
-						if g, ok := st.Addr.(*ssa.Global); ok && g.Name() == "classObject" {
+						if g, ok := st.Addr.(*ssa.Global); ok && g.Name() == global {
 							init = fn
 						}
 					}
@@ -322,7 +325,7 @@ func ordinaryClassTable(c *Ctx, in *absInterp) (aval, string) {
 		}
 	}
 	if init == nil {
-		return nil, "no store to the global classObject found in an init function"
+		return nil, "no store to the global " + global + " found in an init function"
 	}
 	for _, b := range init.Blocks {
 		for _, ins := range b.Instrs {
@@ -331,12 +334,12 @@ func ordinaryClassTable(c *Ctx, in *absInterp) (aval, string) {
 				continue
 			}
 			g, ok := st.Addr.(*ssa.Global)
-			if !ok || g.Name() != "classObject" {
+			if !ok || g.Name() != global {
 				continue
 			}
 			al, ok := st.Val.(*ssa.Alloc)
 			if !ok {
-				return nil, "classObject is not initialised with a composite literal"
+				return nil, global + " is not initialised with a composite literal"
 			}
 			pt := al.Type().Underlying().(*types.Pointer)
 			tbl := in.zero(pt.Elem()).(aStruct)
@@ -353,8 +356,8 @@ func ordinaryClassTable(c *Ctx, in *absInterp) (aval, string) {
 					}
 				}
 			}
-			return aRef{root: &acell{v: tbl, name: "classObject"}}, ""
+			return aRef{root: &acell{v: tbl, name: global}}, ""
 		}
 	}
-	return nil, "classObject initialiser not found"
+	return nil, global + " initialiser not found"
 }
